@@ -112,24 +112,12 @@ theorem inRows_err {number : Bool} {cols : List (List Value)} :
     refine .bind (inColumns_err cols (fun col hcol => by have := hc col hcol; omega)) fun _ => ?_
     exact .bind (inRows_err n (i + 1) ls (by simpa using h) (fun col hcol => by have := hc col hcol; omega)) fun _ => .ok _
 
-theorem exb_equalBatchRow {k : EqKind} {x z : Value} : ExBenign (equalBatchRow k x z) := by
-  unfold equalBatchRow
-  split <;> (try split) <;> first | exact .ok _ | exact exb_numberEqual | exact .err benign_operandType
-
 theorem equalBatchFinish_err {not : Bool} {n : Nat} {xs ys : List Value} (hx : xs.length = n) (hy : ys.length = n) :
     ExBenign (equalBatchFinish not n xs ys) := by
   unfold equalBatchFinish
   split
   · exact .ok _
-  · rename_i hn
-    split
-    · rename_i hh
-      cases xs with
-      | nil => simp at hx; subst hx; simp at hn
-      | cons x xs => simp at hh
-    · split
-      · exact .err benign_operandType
-      · exact zipRows_err (fun x z => ExBenign.map (ExBenign.map exb_equalBatchRow)) n xs ys hx hy
+  · exact zipRows_err (fun x z => ExBenign.map (ExBenign.map exb_equalRow)) n xs ys hx hy
 
 theorem exb_distanceRow {dist : List F64 → List F64 → Except Err F64} (hd : ∀ l r, ExBenign (dist l r))
     {l r : Value} : ExBenign (distanceRow dist l (some r)) := by
@@ -185,5 +173,14 @@ theorem forPairs_total {f : Pair → M Value} (hf : ∀ kv, Total (f kv)) : ∀ 
   | kv :: kvs => by
     rw [forPairs]
     exact .bind (hf kv) fun _ => .bind (forPairs_total hf kvs) fun _ => .pure _
+
+/-- the row body run pair by pair with a nil context (join / list / int_list / float_list in batch) -/
+theorem rowWiseNoCtx_totalAt {f : Pair → M Value} (hf : ∀ kv, Total (f kv)) (chunk : List Pair) (c : Ctx) :
+    TotalAt (rowWiseNoCtx f chunk) c := by
+  intro e c' h
+  unfold rowWiseNoCtx at h
+  rcases hx : forPairs f chunk Ctx.none with ⟨r, d⟩
+  rw [hx] at h; simp at h
+  exact forPairs_total hf chunk Ctx.none e d (by rw [hx, h.1])
 
 end Kvql
